@@ -1040,7 +1040,7 @@ func (e *env) runBlock(pending []chain.M, nextDt int64) bool {
 			// member of a multi-message transaction that failed as a whole (chain.BundlePct):
 			// whatever it did was rolled back; the specification knows no such event and
 			// treats it as a rejection without effect
-			ev["name"] = "TxFailed"
+			ev["_orig"], ev["name"] = ev["name"], "TxFailed"
 		}
 		ok, pan := r.OK, r.Panic
 		if modEvents[chain.Str(ev, "name")] {
